@@ -182,6 +182,33 @@ CHECKS = {
         "claim": "PARTIAL: theorems are about a counter abstraction of a third-party pool; which goroutine receives "
                  "a send and removal racing a send are runtime behaviour sampled by the correspondence, not proved.",
     },
+    **{pid: {
+        "family": "sched", "level": "proof", "modules": ["Gk.Props." + pid], "components": ["sched"],
+        "runs": (lambda pid: lambda tier: (lambda n: [
+            {"args": ["sched", "-n", str(n), "-len", "25", "-slots", "0"] + (["-faults", "1"] if pid == "C20" else [])},
+            {"args": ["sched", "-n", str(n), "-len", "25", "-slots", "0", "-faults", "2" if pid == "C20" else "1"], "seed_off": 50},
+        ])({"quick": 500, "thorough": 20000, "widen": 3000}[tier]))(pid),
+        "rule": "the real Scheduler over the real observable repository (in-memory + hook timer, virtual clock), a "
+                "call-logging proxy and a simulated dispatcher with 1..3 slots: random scripts of user mutations, "
+                "time advances, Step / Retry (driver policy: a step that reported an error is retried), completions "
+                "(nil / error / ctx) with user mutations, faults (error before / after effect, hook GetNext fault, "
+                "context cancellation) injected before any of the scheduler's repository / dispatcher calls, ending "
+                "in a fair fault-free quiescence phase; every call, result, returned state, work start and the final "
+                "dump are replayed on Gk.World, and the monitors run on the implementation's own lines",
+        "trusted_base": COMMON_TB + ["the dispatcher is simulated (contract of def.Dispatcher; the real one is tied by C08/C09)",
+                                     "goroutine scheduling inside Step's select and the event queue is sampled, not proved"],
+        "assumptions": ["driver policy: StartTimer once; a step that reported an error is retried before stepping on "
+                        "(repository verdicts once, transient errors until they go away); a worker is freed before a "
+                        "failed dispatch is retried in the quiescence phase",
+                        "user mutations are AddTask / UpdateById / Cancel (the scheduler is the only caller of MarkAsDispatched / MarkAsDone)"],
+        "claim": claim,
+    } for pid, claim in (
+        ("C03", "PARTIAL: open known finding D3i (postponement between the scheduler's read and its mark) - the full statement is false of the code, C03_partial excludes exactly that trigger; hook-timer configuration only."),
+        ("C04", "hook-timer configuration; Retry of every error state included."),
+        ("C05", "PARTIAL: 'a worker is free / the queue is running' are hypotheses discharged by C08/C09's ties; hook-timer configuration only."),
+        ("C06", "hook-timer configuration; delivery through eventqueue's goroutines is sampled."),
+        ("C20", "PARTIAL: inherits C03's open finding D3i; faults on every scheduler call incl. hook re-arming."),
+    )},
     "C14": {
         "family": "repo", "level": "proof", "modules": ["Gk.Props.C14"],
         "components": ["repo", "heap", "snapshot", "memspec", "next", "find"],
